@@ -150,6 +150,14 @@ class ItemsView:
         self.ver, self.mode, self.owner, self.snapshot = ver, mode, owner, snapshot
 
 
+class Assoc:
+    """a small python dict built from explicitly enumerated items whose keys are symbolic (e.g. {v: k for k, v in
+    d.items()} over a dict of known size): list of (key, value) in insertion order"""
+
+    def __init__(self, pairs):
+        self.pairs = list(pairs)
+
+
 class AssignVal:
     """the ghost assignment viewed as a python mapping/sequence argument: x[i] -> xval(i) / zval(i) / aval(i)"""
 
